@@ -53,7 +53,12 @@ func vC08Handoff(n int) {
 		obs = SubscribeOn[int64](int(capa))(p)
 	}
 	rec := &vRecorder{yield: true, quiet: true}
-	vGo(func() { obs.SubscribeWithContext(context.Background(), vObs(rec, vFlatInt)) })
+	returned := false
+	var sub Subscription
+	vGo(func() {
+		sub = obs.SubscribeWithContext(context.Background(), vObs(rec, vFlatInt))
+		returned = true
+	})
 	vQuiesce()
 	vAssert(p.subs == 1, name+": the source was not subscribed")
 	end := vChoice("end", 2)
@@ -78,6 +83,14 @@ func vC08Handoff(n int) {
 	if len(rec.evs) == n+1 {
 		vAssert(rec.evs[n].kind != vkNext, name+": the terminal notification was not delivered after the queued values")
 	}
+	// C06: the stream has terminated, so the Subscribe call has returned, the subscription is closed
+	// and Wait returns
+	vAssert(returned, name+": the Subscribe call is still running after the terminal notification was delivered")
+	if returned {
+		vAssert(sub.IsClosed(), name+": the subscription is not closed after the terminal notification was delivered")
+		sub.Wait()
+	}
+	vAssert(p.live == 0, name+": the source is still subscribed after the stream terminated")
 	run, blk := vLive()
 	vAssert(run+blk == 0, name+": a library goroutine is left after termination")
 	vReach("end")
